@@ -448,13 +448,19 @@ static MacroParam *read_macro_params(Token **rest, Token *tok, char **va_args_na
 }
 
 static void read_macro_definition(Token **rest, Token *tok) {
-  if (tok->kind != TK_IDENT)
+  if (tok->kind != TK_IDENT || tok->at_bol)
     error_tok(tok, "macro name must be an identifier");
   char *name = strndup(tok->loc, tok->len);
   tok = tok->next;
 
   if (!tok->has_space && !tok->at_bol && equal(tok, "(")) {
-    // Function-like macro
+    // Function-like macro. The parameter list ends on this line.
+    Token *t = tok->next;
+    while (!t->at_bol && t->kind != TK_EOF && !equal(t, ")"))
+      t = t->next;
+    if (t->at_bol || t->kind == TK_EOF)
+      error_tok(t, "expected ')'");
+
     char *va_args_name = NULL;
     MacroParam *params = read_macro_params(&tok, tok->next, &va_args_name);
 
@@ -931,6 +937,9 @@ static char *search_include_next(char *filename, int idx) {
 
 // Read an #include argument.
 static char *read_include_filename(Token **rest, Token *tok, bool *is_dquote) {
+  if (tok->at_bol)
+    error_tok(tok, "expected a filename");
+
   // Pattern 1: #include "foo.h"
   if (tok->kind == TK_STR) {
     // A double-quoted filename for #include is a special kind of
@@ -1187,7 +1196,7 @@ static Token *preprocess2(Token *tok) {
 
     if (equal(tok, "undef")) {
       tok = tok->next;
-      if (tok->kind != TK_IDENT)
+      if (tok->kind != TK_IDENT || tok->at_bol)
         error_tok(tok, "macro name must be an identifier");
       undef_macro(strndup(tok->loc, tok->len));
       tok = skip_line(tok->next);
@@ -1206,7 +1215,7 @@ static Token *preprocess2(Token *tok) {
     }
 
     if (equal(tok, "ifdef")) {
-      if (tok->next->kind != TK_IDENT)
+      if (tok->next->kind != TK_IDENT || tok->next->at_bol)
         error_tok(tok->next, "macro name must be an identifier");
       bool defined = find_macro(tok->next);
       push_cond_incl(tok, defined);
@@ -1220,7 +1229,7 @@ static Token *preprocess2(Token *tok) {
     }
 
     if (equal(tok, "ifndef")) {
-      if (tok->next->kind != TK_IDENT)
+      if (tok->next->kind != TK_IDENT || tok->next->at_bol)
         error_tok(tok->next, "macro name must be an identifier");
       bool defined = find_macro(tok->next);
       push_cond_incl(tok, !defined);
